@@ -496,6 +496,11 @@ func Replay(t *testing.T) {
 // ReplayDir re-runs every committed replay/regression case under dir (JSON files in the replay
 // format) as plain tests: the seconds-long replay tier.
 func ReplayDir(t *testing.T, dir string) {
+	if st.Shard != 0 {
+		t.Skip("regression cases run in the first process only")
+	}
+	// keep what was counted so far even if a regression case kills the process
+	Flush(false)
 	files, _ := filepath.Glob(filepath.Join(dir, "*.json"))
 	sort.Strings(files)
 	for _, p := range files {
@@ -532,4 +537,34 @@ func Root() string {
 		return r
 	}
 	return "/verif"
+}
+
+var fastFile *os.File
+
+// GuardFast is Guard for tight loops: it rewrites one open file in place (two syscalls).
+func GuardFast(name string, c any) {
+	if os.Getenv("VERIF_OUT") == "" {
+		return
+	}
+	if fastFile == nil {
+		f, err := os.OpenFile(filepath.Join(outDir, fmt.Sprintf("current-%d.json", st.Shard)), os.O_CREATE|os.O_RDWR|os.O_TRUNC, 0o644)
+		if err != nil {
+			return
+		}
+		fastFile = f
+	}
+	raw, _ := json.Marshal(c)
+	b, _ := json.Marshal(map[string]any{"property": st.Property, "check": name, "case": json.RawMessage(raw)})
+	fastFile.WriteAt(b, 0)
+	fastFile.Truncate(int64(len(b)))
+}
+
+// UnguardFast removes the side file at the normal end of a guarded loop.
+func UnguardFast() {
+	if fastFile != nil {
+		name := fastFile.Name()
+		fastFile.Close()
+		fastFile = nil
+		os.Remove(name)
+	}
 }
